@@ -209,7 +209,10 @@ func (cj *CookieJar) parseCookiesFromResp(host, path []byte, resp *fasthttp.Resp
 
 		_ = c.ParseBytes(value) //nolint:errcheck // ignore error
 		if c.Expire().Equal(fasthttp.CookieExpireUnlimited) || c.Expire().After(now) {
-			cookies = append(cookies, c)
+			// a cookie that was found in the jar has been updated in place
+			if created {
+				cookies = append(cookies, c)
+			}
 		} else if created {
 			fasthttp.ReleaseCookie(c)
 		}
